@@ -94,6 +94,13 @@ def documents(tier):
                            "([name] = 'O\\'Neil')", '("[a]" = "say \\"hi" OR [b] = 1)', "([a] ~ /o'neil/)", "(([a] + 'it\\'s') = \"x\")",
                            '([a] IN "1,2" AND NOT ([b] ~ "^(x|y)$"))', '(tostring([area],"%.2f (ha)"))', '{a (1),b}', '/^(a|b)\\)$/']):
         out.append(("EXPR %d" % i, "LAYER\n  TYPE POINT\n  CLASS\n    EXPRESSION %s\n    TEXT %s\n  END\nEND" % (e, e if e.startswith("(") else '"t"')))
+    # escaped quotes (of the wrapping kind and of the other kind) in plain strings, written with either quote in the source
+    n_expr = 12
+    for v in ("it\\'s", 'a \\"b\\" c', "x\\\\y"):
+        for q in ('"', "'"):
+            out.append(("EXPR esc %d" % n_expr, "LAYER\n  NAME %s%s%s\n  TYPE POINT\n  METADATA\n    %sk %s%s %s%s%s\n  END\n  PROCESSING %s%s%s\n  CLASS\n    TEXT %s%s%s\n  END\nEND" % (
+                q, v, q, q, v, q, q, v, q, q, v, q, q, v, q)))
+            n_expr += 1
     # keywords that are also block names, holding simple values and being the longest keyword of their object
     for i, t in enumerate(['STYLE\n  SYMBOL 2\n  SIZE 3\n  COLOR 1 2 3\nEND', 'QUERYMAP\n  STYLE HILITE\n  SIZE 1 2\nEND', 'SCALEBAR\n  STYLE 1\n  SIZE 20 3\nEND',
                            'CLASS\n  SYMBOL 5\n  NAME "c"\n  SIZE 3\nEND', 'MAP\n  SYMBOLSET "s.txt"\n  NAME "n"\n  ANGLE 0\nEND', 'STYLE\n  SYMBOL [sym]\n  GAP 2\nEND',
